@@ -16,10 +16,10 @@ SPEC = dict(
              dict(name="cli-commands", shards=T(16, 16), timeout=T(1500, 7200), needs_wtf=True)],
     rule="case = one invocation of the built binary; non-trivial = a search that printed at least one result, or any sub-command invocation; distinct by argument vector (and stdin).",
     floors=T({"accepted": 100, "rejected": 10, "format-json": 30, "format-list": 30, "format-table": 10, "no-color-runs": 40, "history-checked": 80,
-              "rank-order-compared": 20, "recovery-answers": 3, "cmd-wizard": 50, "cmd-history": 50, "cmd-alias": 50, "cmd-save": 50, "cmd-save-pipeline": 30,
+              "rank-order-compared": 20, "recovery-answers": 3, "db-kind-missing-path": 2, "db-kind-malformed": 2, "db-kind-shipped": 2, "homes-with-xdg-config-home": 8, "cmd-wizard": 50, "cmd-history": 50, "cmd-alias": 50, "cmd-save": 50, "cmd-save-pipeline": 30,
               "cmd-pipeline": 30, "cmd-setup": 30, "distinct_nontrivial": 500},
              {"accepted": 1000, "rejected": 100, "format-json": 300, "format-list": 300, "format-table": 100, "no-color-runs": 400, "history-checked": 800,
-              "rank-order-compared": 200, "recovery-answers": 30, "cmd-wizard": 500, "cmd-history": 500, "cmd-alias": 500, "cmd-save": 500, "cmd-save-pipeline": 300,
+              "rank-order-compared": 200, "recovery-answers": 30, "db-kind-missing-path": 20, "db-kind-malformed": 20, "db-kind-shipped": 20, "homes-with-xdg-config-home": 80, "cmd-wizard": 500, "cmd-history": 500, "cmd-alias": 500, "cmd-save": 500, "cmd-save-pipeline": 300,
               "cmd-pipeline": 300, "cmd-setup": 300, "distinct_nontrivial": 5000}),
     assumptions=["exit status 1 with a cobra usage error is a normal end of a command given wrong arguments"],
 )
